@@ -9,6 +9,7 @@ Helper lemmas: `Lemmas/Routing*.lean`.
 -/
 import WzVerif.Lemmas.RoutingTop
 import WzVerif.Lemmas.RoutingPriority
+import WzVerif.Lemmas.RoutingRedirect
 import WzVerif.Gen.RoutingSamples
 namespace Wz.Props.C03
 open Wz Wz.Routing
@@ -362,6 +363,37 @@ theorem match_405_full_false :
       (fun r hr => ⟨(h2 r hr).1.2, (h2 r hr).2⟩) ⟨r, hr, h3⟩
     rw [h1] at this; cases this
 
+
+/-! ### the slash redirect -/
+
+/-- **slash_redirect_sound.** The matcher asks for the trailing-slash redirect only when some strict
+branch rule of the map, fit for the request method and protocol, admits the path but for its final
+slash (and `MapAdapter.match` then redirects to exactly path + '/', C12.slash_redirect_on_bound_host). -/
+theorem slash_redirect_sound {cfg : MapCfg} {specs : List RuleSpec} {m : RMap} (hm : mkMap cfg specs = some m)
+    (q : Req) (dom path : Str) (h : (dfs q m.root (segments dom path) []).res.isSlash = true) :
+    ∃ r ∈ m.rules, r.spec.buildOnly = false ∧ ruleOK q r = true ∧ wantsSlash r dom path = true := by
+  have hb := mkMap_built hm
+  have hs := dfs_sound q m.root (segments dom path) []
+  cases hr : (dfs q m.root (segments dom path) []).res with
+  | none => rw [hr] at h; cases h
+  | found r vs => rw [hr] at h; cases h
+  | slash =>
+    rw [hr] at hs
+    obtain ⟨r, ps, vs', hi, hok, hst, hw⟩ := hs
+    rw [hb.root_eq, inTrie_buildRoot] at hi
+    obtain ⟨hmem, hbo, rfl⟩ := hi
+    exact ⟨r, hmem, hbo, hok, by simp [wantsSlash, hst, hw]⟩
+
+def specsF03c : List RuleSpec :=
+  [ { toks := [.slash, .var (.int 2 false none none) "x".toList, .slash], endpoint := "a".toList } ]
+
+-- non-vacuity, and **F03c**: `Map([Rule('/<int(fixed_digits=2):x>/')])`, `/123` asks for the slash although
+-- the redirect target `/123/` is `NotFound` — the rule's pattern admits it, its `to_python` does not
+-- (the redirect is decided before conversion)
+example : (match mkMap {} specsF03c with
+    | some m => (dfs ⟨"GET".toList, false⟩ m.root (segments [] "/123".toList) []).res.isSlash &&
+                (matchAdapter m adapter0 "/123/".toList none .none none).isNotFound
+    | none => false) = true := by decide +kernel
 
 /-! ### priority -/
 
